@@ -152,7 +152,12 @@ func H_C03_history() {
 			}
 			var ies []*ie.IE
 			expectReject := false
-			switch vChoose("change", 6) {
+			switch vChoose("change", 7) {
+			case 6: // a late Update FAR for a FAR the session does not have: nothing may be written for it
+				ghost := fars[k][1]
+				ghost.id = 9
+				ghost.teid = 0x9000 + uint32(k)
+				ies = append(ies, ghost.update())
 			case 0: // update FAR: new tunnel
 				u := fars[k][1]
 				u.peer, u.teid = vGNBs[vChoose("new_gnb", len(vGNBs))], 0x7000+uint32(k)
